@@ -123,6 +123,8 @@ impl vstd::std_specs::convert::FromSpecImpl<SerdeErr> for AnyErr {
 }
 pub mod serde_json {
     use super::*;
+    pub type Error = SerdeErr;
+    pub type Result<T> = ::std::result::Result<T, SerdeErr>;
     pub uninterp spec fn ser<T>(v: T) -> Seq<char>;
     pub uninterp spec fn de<T>(s: Seq<char>) -> Option<T>;
     #[verifier::external_body]
